@@ -45,16 +45,25 @@ def node_source(i: Any, nd: Dict[str, Any]) -> str:
 
 
 def program_source(nodes: List[Dict[str, Any]], task_deps: List[Any], task: Dict[str, Any]) -> str:
-    L = ["import asyncio, contextlib", "from taskiq import TaskiqDepends, Context"]
+    L = ["import asyncio, contextlib, typing", "import pydantic", "from taskiq import TaskiqDepends, Context"]
+    if task.get("box"):
+        L.append("class Box(pydantic.BaseModel):\n    items: typing.List[int]\n\n    @pydantic.model_validator(mode='before')\n    @classmethod\n"
+                 "    def _short_form(cls, v):\n        if isinstance(v, str):\n            return {'items': [int(x) for x in v.split(',')]}\n        return v")
     for i, nd in enumerate(nodes):
         L.append(node_source(i, nd))
     for ri, rep in enumerate(task.get("replacements") or []):
         # replacement dependencies (broker.dependency_overrides): same recipe, named r<k>, logged as node "r<k>"
         L.append(node_source(f"r{ri}", rep["node"]).replace(f"def nr{ri}(", f"def r{ri}("))
     params = ["me=None", "slp=0"] + [f"d{j}=TaskiqDepends(n{j}, use_cache={bool(uc)})" for j, uc in task_deps] + ["ctx: Context = TaskiqDepends()"]
+    if task.get("box"):
+        # an annotated parameter whose conversion builds a MUTABLE object from a scalar wire value ('1,2' -> model with a list):
+        # every execution must get an object of its own
+        params.append("box: Box = None")
     body = ("    LOG('enter', 'task', ctx.message.task_id, ctx.message.args[0] if ctx.message.args else None, ctx.message.labels.get('who'))\n"
             "    try:\n"
-            "        if slp:\n            await asyncio.sleep(slp)\n"
+            + ("        if box is not None:\n            box.items.append(me)\n" if task.get("box") else "")
+            + "        if slp:\n            await asyncio.sleep(slp)\n"
+            + ("        if box is not None:\n            LOG('box', 'task', list(box.items))\n" if task.get("box") else "") +
             "        LOG('echo', 'task', ctx.message.task_id, ctx.message.args[0] if ctx.message.args else None, ctx.message.labels.get('who'))\n")
     kind = task.get("kind", "ret")
     if kind == "raise":
